@@ -28,6 +28,13 @@ func VerifJSGetName(n int) {
 		vAssert('a' <= c && c <= 'z' || 'A' <= c && c <= 'Z' || c == '_' || c == '$' || '0' <= c && c <= '9', "identifier character")
 	}
 	vAssert(r.getIndex(name) == i, "getIndex(getName(i)) = i (names are pairwise distinct)")
+	// ECMAScript reserved words (and let / static / yield / await, reserved in some contexts) of up to three characters:
+	// the renamer must skip them whatever their length
+	for _, kw := range []string{"do", "if", "in", "for", "let", "new", "try", "var"} {
+		if string(name) == kw {
+			vAssert(r.isReserved(name, nil), "a generated name that is a reserved word is recognised as reserved")
+		}
+	}
 	vReach("end")
 }
 
@@ -166,7 +173,9 @@ func VerifJSRename(n int) {
 	verifRenameCheck(src)
 }
 
-func verifRenameCheck(src []byte) {
+func verifRenameCheck(src []byte) { verifRenameCheckV(src, 0) }
+
+func verifRenameCheckV(src []byte, version int) {
 	orig := append([]byte(nil), src...)
 	hasWith := false
 	for i := 0; i+5 <= len(orig); i++ {
@@ -175,8 +184,8 @@ func verifRenameCheck(src []byte) {
 		}
 	}
 	w1, w2 := &vWriter{}, &vWriter{}
-	err1 := (&Minifier{KeepVarNames: true}).Minify(nil, w1, &vReader{b: append([]byte(nil), orig...)}, nil)
-	err2 := (&Minifier{}).Minify(nil, w2, &vReader{b: append([]byte(nil), orig...)}, nil)
+	err1 := (&Minifier{KeepVarNames: true, Version: version}).Minify(nil, w1, &vReader{b: append([]byte(nil), orig...)}, nil)
+	err2 := (&Minifier{Version: version}).Minify(nil, w2, &vReader{b: append([]byte(nil), orig...)}, nil)
 	vReach("after-call")
 	vOutput("kept", w1.buf)
 	vOutput("renamed", w2.buf)
@@ -390,4 +399,30 @@ func jHasIdent(b []byte, name string) bool {
 		}
 	}
 	return false
+}
+
+// programs whose inner bindings are spelled like the first names the renamer hands out (e, t, n), in scope kinds the
+// generators above do not build: switch clauses whose else-block is dissolved, catch parameters (used / unused) for
+// several target versions, labelled blocks, default parameters, named function expressions, class static blocks.
+var verifRenameShapes = []string{
+	"x=function(a){switch(a){case 1:if(a){break}else{let e=1;return e+a}}};",
+	"x=function(a){switch(a){case 1:let e=1;g(e,a);break;default:let t=2;g(t,a)}};",
+	"x=function(a){try{g()}catch(e){return a}};",
+	"x=function(a){try{g()}catch(e){let t=1;return a+t}};",
+	"x=function(a){try{g()}catch(e){return e+a}};",
+	"x=function(a){for(let e of a){if(e){continue}else{let t=e;g(t,a)}}};",
+	"x=function(a){l:{if(a){break l}else{let e=2;g(e,a)}}};",
+	"x=function(a,b=a){let e=b;return e+a};",
+	"x=function(a){return function e(){return a+e}};",
+	"x=function(a){if(a){return 1}else{let e=1;let t=2;return e+t+a}};",
+	"x=function(a){class A{static{let e=1;g(e,a)}}};",
+	"x=function(a){class A{m(e){return e+a}}return A};",
+	"x=function(a){while(a){if(a){break}else{const e=1;g(e,a)}}};",
+}
+
+// VerifJSRenameShapes: 13 scope shapes x 4 target versions.
+func VerifJSRenameShapes(n int) {
+	src := []byte(verifRenameShapes[vChoice("shape", len(verifRenameShapes))])
+	version := []int{0, 2018, 2015, 2020}[vChoice("version", 4)]
+	verifRenameCheckV(src, version)
 }
